@@ -33,7 +33,7 @@ impl Engine for SysEngine {
     fn budget(&self, tier: Tier) -> (u32, u32) {
         match tier {
             Tier::Quick => (64, 8),
-            Tier::Thorough => (128, 24),
+            Tier::Thorough => (128, 16),
         }
     }
     fn strategy(&self, tier: Tier) -> BoxedStrategy<SysCase> {
@@ -42,7 +42,7 @@ impl Engine for SysEngine {
         let long = match (self.id, tier == Tier::Quick) {
             ("C05", true) | ("C02", true) | ("C14", true) | ("C03", true) | ("C15", true) => 1,
             (_, true) => 0,
-            ("C05", false) | ("C02", false) | ("C14", false) | ("C03", false) | ("C15", false) => 20,
+            ("C05", false) | ("C02", false) | ("C14", false) | ("C03", false) | ("C15", false) => 8,
             (_, false) => 6,
         };
         let dispute = match self.id { "C15" => 30, "C02" | "C01" => 10, _ => 5 };
